@@ -226,6 +226,12 @@ class LibsModel:
                 # one application stands for the fold when the step keeps the kind of the accumulator
                 return join(init, interp.call_value(f, [init, el], {}, frame, st, node))
             return AV(deps=d)
+        if qual == 'operator.methodcaller' and args and has_const(args[0]):
+            return AV(ty='opcaller', kind='method', name=cval(args[0]), pargs=list(args[1:]), pkwargs=dict(kwargs), deps=d)
+        if qual == 'operator.attrgetter' and len(args) == 1 and has_const(args[0]) and '.' not in str(cval(args[0])):
+            return AV(ty='opcaller', kind='attr', name=cval(args[0]), deps=d)
+        if qual == 'operator.itemgetter' and len(args) == 1:
+            return AV(ty='opcaller', kind='item', key=args[0], deps=d)
         if qual == 'functools.partial' and args:
             return AV(ty='partial', target=args[0], pargs=list(args[1:]), pkwargs=dict(kwargs), deps=d)
         if qual.startswith('functools.'):
@@ -643,7 +649,14 @@ class LibsModel:
         if ty == 'bytes':
             return AV(deps=d)
         if ty == 'hash':
-            return AV(ty='str', deps=d)
+            if name == 'update':
+                # the digest now depends on what was fed
+                if node is not None and isinstance(node.func, ast.Attribute):
+                    self.rebind(interp, st, frame, node.func.value, recv.w(deps=d))
+                return const(None)
+            if name == 'copy':
+                return recv
+            return AV(ty='bytes' if name == 'digest' else 'str', deps=d)
         if ty == 'Path':
             if name == 'with_name':
                 # only the directory of the receiver survives; the file name is replaced by the argument
